@@ -95,12 +95,18 @@ class Analysis:
         self.final = False
         self.bases = {}
         self.origin = {}       # local key -> the place its value was copied from (for layout sources)
+        self.elem_index = {}   # element symbol -> index Lin within its slice
+        self.elems = []        # single-byte reads (A10)
+        self._elem_seen = set()
+        self._cur_bi = 0
+        self._last_index = None
         self._parent_sid = None
         self.reads = []        # integer reads from byte slices (A10)
         self.slices = []       # sub-slices taken (A10)
         self.derived = {}      # symbol -> symbols it was computed from
         self.dispatch = None
         self.force = None
+        self.force_sym = None
         self.emits = []        # bytes written to a writer, in order (A10)
         self.discr_types = {}  # place key -> type of the enum whose discriminant is switched on
         self.debug = False
@@ -141,10 +147,12 @@ class Analysis:
                     iv = st.store.get("_%d" % p["ix"])
                     if iv is not None and iv[0] == "lin":
                         cur = "%s[%r]" % (cur, iv[1])
+                        self._last_index = iv[1]
                     else:
                         cur = "%s[?%d.%d]" % (cur, bi, si)
                 elif "cix" in p:
                     cur = "%s[%s%d]" % (cur, "end-" if p["end"] else "", p["cix"])
+                    self._last_index = Lin.const(p["cix"]) if not p["end"] else None
                 elif "sub" in p:
                     cur = "%s[sub%d.%d]" % (cur, bi, si)
             else:
@@ -168,6 +176,14 @@ class Analysis:
             # element of a byte slice read through a shared reference: pure symbol
             if "[" in key and not key.startswith("_") or key.startswith("*"):
                 symname = "elem(%s)" % key
+                if self._last_index is not None:
+                    self.elem_index[symname] = self._last_index
+                if self.final and symname not in self._elem_seen:
+                    self._elem_seen.add(symname)
+                    mm = re.match(r"^elem\(\*?(.*)\[.*\]\)$", symname)
+                    if mm and self._last_index is not None:
+                        root, off = self.root_of(mm.group(1))
+                        self.elems.append({"sym": symname, "root": root, "off": off + self._last_index, "bi": self._cur_bi})
             return ("lin", self.sym(symname, int_range(t)))
         if k == "ref":
             inner = self.types[t["t"]]
@@ -756,7 +772,7 @@ class Analyzer(Analysis):
             if sid in self.bases:
                 root, off = self.root_of(sid)
                 src2 = st.store.get("src:" + root)
-                arr2 = st.store.get(src2[1]) if src2 is not None else None
+                arr2 = st.store.get(src2[1]) if src2 is not None else st.store.get(root)
                 if arr2 is not None and arr2[0] == "bytes":
                     return ("int-part", arr2[2], arr2[3], arr2[4], off, st.store.get("len:" + sid, (None, None))[1])
             return ("raw", self.origin.get(sid, sid))
@@ -970,7 +986,32 @@ class Analyzer(Analysis):
                     if self.final:
                         self.events.append(ev)
                     return
+                if m_ and vals and vals[0] is not None and vals[0][0] == "array" and r is not None and vals[0][2]:
+                    # u16::from_be_bytes([data[i], data[i + 1]]) and the zero-padded u24 / u48 forms
+                    elems = []
+                    for x in vals[0][2]:
+                        lx = self.as_lin(x)
+                        if lx is not None and lx.is_const() and lx.c == 0 and not elems:
+                            continue
+                        mm = re.match(r"^elem\(\*?(.*)\[(.*)\]\)$", lx.t[0][0]) if (lx is not None and len(lx.t) == 1 and lx.c == 0) else None
+                        elems.append(mm)
+                    if elems and all(elems) and len(set(e.group(1) for e in elems)) == 1:
+                        s_ = self.sym("rd%d" % bi, r)
+                        sid0 = elems[0].group(1)
+                        root, off = self.root_of(sid0)
+                        first_ix = self.elem_index.get(vals[0][2][len(vals[0][2]) - len(elems)][1].t[0][0])
+                        if first_ix is not None and self.final:
+                            self.reads.append({"bi": bi, "sym": "rd%d" % bi, "root": root, "off": off + first_ix, "width": len(elems),
+                                               "order": {"from_be_bytes": "BE", "from_le_bytes": "LE", "from_ne_bytes": "NE"}[m_.group(1)],
+                                               "signed": dest_ty["sg"], "sp": sp, "padded_to": dest_ty["w"] // 8})
+                        self.write(st, dest_key, ("lin", s_))
+                        if self.final:
+                            self.events.append(ev)
+                        return
                 if name.endswith(("::to_be", "::from_be", "::to_le", "::from_le")) and dest_ty["k"] == "int" and dest_ty["w"] == 8 and la is not None:
+                    if args[0]["o"] in ("copy", "move"):
+                        sk_ = self.key_of(st, args[0]["pl"], bi, -4)
+                        self.origin[dest_key] = self.origin.get(sk_, sk_)
                     result = ("lin", la)
                 elif name.endswith("::min") and len(vals) > 1 and la is not None and self.as_lin(vals[1]) is not None:
                     s = self.sym("min%d" % bi, r)
@@ -1367,6 +1408,7 @@ class Analyzer(Analysis):
         """returns list of (succ, state)"""
         b = self.b
         bl = b.blocks[bi]
+        self._cur_bi = bi
         for si, s in enumerate(bl["stmts"]):
             if s["s"] == "assign":
                 self.assign(st, s["pl"], s["rv"], bi, si)
@@ -1413,6 +1455,12 @@ class Analyzer(Analysis):
                 if len(arms) == 1:
                     self.add_cmp(s2, NEG[d[1]] if arms[0][0] != 0 else d[1], d[2], d[3])
                 out.append((t["otherwise"], s2))
+            elif d is not None and d[0] == "lin" and self.force_sym and len(d[1].t) == 1 and d[1].c == 0 and d[1].t[0][0] in self.force_sym:
+                want = self.force_sym[d[1].t[0][0]]
+                hit = [tgt for v, tgt in arms if v == want]
+                s2 = st.copy()
+                self.add_cmp(s2, "Eq", d[1], Lin.const(want))
+                out.append((hit[0] if hit else t["otherwise"], s2))
             elif d is not None and d[0] == "lin":
                 x = d[1]
                 for v, tgt in arms:
@@ -1509,6 +1557,10 @@ class Analyzer(Analysis):
             same = all(v == vs[0] for v in vs[1:])
             if same and k not in must_phi and k not in sticky:
                 store[k] = vs[0]
+                continue
+            if all(v is not None and v[0] == "bytes" for v in vs) and len(set((v[2], v[3]) for v in vs)) == 1:
+                # both arms of a branch produced the bytes of an integer of the same width / order
+                store[k] = ("bytes", None, vs[0][2], vs[0][3], vs[0][4] if len(set(map(str, (v[4] for v in vs)))) == 1 else None)
                 continue
             if all(v is not None and v[0] == "lin" for v in vs):
                 name = own + k
